@@ -216,3 +216,86 @@ Example c13_impl_ok_ex2 :   (* wrong float bits, wrong order, two documents: all
         [ISeq [IVal (IStr [97]%N); IVal (IFloat 4609434218613702656)]];
         [ISeq [IVal (IFloat 4609434218613702656); IVal (IStr [97]%N)]; IVal INull] ] = [false; false; false].
 Proof. vm_compute. reflexivity. Qed.
+
+(* ---------------- JSON texts (RFC 8259 sections 2-7) ----------------
+   [json_doc_text v s]: the code points [s] are a serialisation of [v] — any insignificant whitespace (space, TAB,
+   LF, CR) before and after every structural token and value; strings with any mix of raw characters, two-character
+   escapes and \uXXXX escapes (of scalar values only: the statement of C13 excludes surrogate halves). *)
+Definition is_ws (c : chr) : bool := ch c 32 || ch c 9 || ch c 10 || ch c 13.
+Definition ws (l : str) : Prop := forallb is_ws l = true.
+
+Definition hex4 (a b c d : chr) : option N :=
+  match to_digit 16 a, to_digit 16 b, to_digit 16 c, to_digit 16 d with
+  | Some x, Some y, Some z, Some w => Some (((x * 16 + y) * 16 + z) * 16 + w)%N
+  | _, _, _, _ => None
+  end.
+Definition surrogate (c : chr) : bool := (55296 <=? c)%N && (c <=? 57343)%N.
+(* escape letter -> character *)
+Definition simple_escapes : list (chr * chr) :=
+  [(34, 34); (92, 92); (47, 47); (98, 8); (102, 12); (110, 10); (114, 13); (116, 9)]%N.
+
+(* decoded string / text between the quotes *)
+Inductive str_text : str -> str -> Prop :=
+| st_nil : str_text [] []
+| st_raw c s t : (32 <=? c)%N = true -> (c <=? 1114111)%N = true -> ch c 34 = false -> ch c 92 = false -> surrogate c = false ->
+                 str_text s t -> str_text (c :: s) (c :: t)
+| st_esc e c s t : In (e, c) simple_escapes -> str_text s t -> str_text (c :: s) (92 :: e :: t)%N
+| st_u a b c d x s t : hex4 a b c d = Some x -> surrogate x = false ->
+                       str_text s t -> str_text (x :: s) (92 :: 117 :: a :: b :: c :: d :: t)%N.
+
+Inductive json_text : jvalue -> str -> Prop :=
+| jt_null : json_text JNull s_null
+| jt_bool b : json_text (JBool b) (lit_text b)
+| jt_num t : json_number t = true -> json_text (JNum t) t
+| jt_str s t : str_text s t -> json_text (JStr s) (34%N :: t ++ [34%N])
+| jt_arr0 w : ws w -> json_text (JArr []) (91%N :: w ++ [93%N])
+| jt_arr x l body : elems_text (x :: l) body -> json_text (JArr (x :: l)) (91%N :: body ++ [93%N])
+| jt_obj0 w : ws w -> json_text (JObj []) (123%N :: w ++ [125%N])
+| jt_obj m l body : members_text (m :: l) body -> json_text (JObj (m :: l)) (123%N :: body ++ [125%N])
+with elems_text : list jvalue -> str -> Prop :=
+| et_one v w1 t w2 : ws w1 -> json_text v t -> ws w2 -> elems_text [v] (w1 ++ t ++ w2)
+| et_cons v w1 t w2 r body : ws w1 -> json_text v t -> ws w2 -> elems_text r body ->
+                             elems_text (v :: r) (w1 ++ t ++ w2 ++ 44%N :: body)
+with members_text : list (str * jvalue) -> str -> Prop :=
+| mt_one k v w1 kt w2 w3 t w4 : ws w1 -> str_text k kt -> ws w2 -> ws w3 -> json_text v t -> ws w4 ->
+                                members_text [(k, v)] (w1 ++ 34%N :: kt ++ 34%N :: w2 ++ 58%N :: w3 ++ t ++ w4)
+| mt_cons k v w1 kt w2 w3 t w4 r body : ws w1 -> str_text k kt -> ws w2 -> ws w3 -> json_text v t -> ws w4 ->
+                                members_text r body ->
+                                members_text ((k, v) :: r) (w1 ++ 34%N :: kt ++ 34%N :: w2 ++ 58%N :: w3 ++ t ++ w4 ++ 44%N :: body).
+
+Definition json_doc_text (v : jvalue) (s : str) : Prop :=
+  exists w1 t w2, ws w1 /\ json_text v t /\ ws w2 /\ s = w1 ++ t ++ w2.
+
+(* the class of the known finding, as a predicate on the text: a ':' outside strings, immediately followed by
+   one or more TABs and then a character in [-0-9A-Za-z] *)
+Inductive tstate := Tout | Tin | Tesc.
+Definition scalar_head (c : chr) : bool :=
+  ch c 45 || ((48 <=? c)%N && (c <=? 57)%N) || ((65 <=? c)%N && (c <=? 90)%N) || ((97 <=? c)%N && (c <=? 122)%N).
+Fixpoint tabs_then_scalar (s : str) (seen : bool) : bool :=
+  match s with
+  | c :: r => if ch c 9 then tabs_then_scalar r true else seen && scalar_head c
+  | [] => false
+  end.
+Fixpoint colon_tab (st : tstate) (s : str) : bool :=
+  match s with
+  | [] => false
+  | c :: r =>
+      match st with
+      | Tesc => colon_tab Tin r
+      | Tin => if ch c 92 then colon_tab Tesc r else if ch c 34 then colon_tab Tout r else colon_tab Tin r
+      | Tout => if ch c 34 then colon_tab Tin r
+                else if ch c 58 then tabs_then_scalar r false || colon_tab Tout r
+                else colon_tab Tout r
+      end
+  end.
+
+(* texts, in order (q = the quote character):  {qaq:TAB1}  {qaq:TABTABt}  {qaq:TAB 1}  {qaq:TABqxq}  [q:TAB1q]  [q\q:TAB1q] *)
+Example colon_tab_ex : map (colon_tab Tout)
+  [ [123;34;97;34;58;9;49;125];
+    [123;34;97;34;58;9;9;116;125];
+    [123;34;97;34;58;9;32;49;125];
+    [123;34;97;34;58;9;34;120;34;125];
+    [91;34;58;9;49;34;93];
+    [91;34;92;34;58;9;49;34;93] ]%N
+  = [true; true; false; false; false; false].
+Proof. reflexivity. Qed.
